@@ -82,6 +82,10 @@ def gen_export(rng):
                     dict(base, kind="FXT", action="FXT", sym="", qty="0", price="0", comm="0", gross="0", net=gen.dec_str(usd, 2), cur="USD", sd=d)]
             if rng.random() < 0.5:
                 legs.reverse()
+            if rng.random() < 0.3:
+                # another activity of the same day is listed between the two legs of the conversion
+                mid = dict(base, kind="BUY", action="Buy", sym=rng.choice(symbols), qty="3", price="10.00", comm="0", gross="-30", net="-30", cur="CAD", sd=d)
+                legs = [legs[0], mid, legs[1]]
             acts += legs
         elif kind == "DIV":
             net = money(rng, 0, 300, 2)
@@ -104,6 +108,10 @@ def layout_rows(rng, acts, style):
         rng.shuffle(cols)
         for i in range(rng.randint(0, 3)):
             extra.append(("Extra %d" % i, "named"))
+        if rng.random() < 0.3:
+            # the user's own columns, named like Questrade's but for letter case or padding
+            for nm in rng.sample(["price", "QUANTITY", "commission", " Net Amount", "symbol ", "CURRENCY", "action", "settlement date"], rng.randint(1, 3)):
+                extra.append((nm, "named"))
         if style == "blank_header":
             for i in range(rng.randint(1, 2)):
                 extra.append((None, "blank"))
